@@ -140,3 +140,20 @@ def canon_deser(out):
                 return [b"E", str(code).encode()]
         return [b"E", b"?" + out[1]]
     return out
+
+
+# ---- full messages for hasToLog with a location template: small domains so that equal head lines
+# (last frame, id, message) with different note trails, and exact duplicates, are both frequent
+H_FILES = [b"a.c", b"b.c", b"x.h"]
+H_INFOS = [b"", b"n1", b"n2"]
+
+
+def gen_htl_msg(rng, ids, texts):
+    nf = rng.choice([0, 1, 1, 2, 2, 3])
+    sev = 8 if rng.random() < 0.08 else rng.choice([1, 2, 3])
+    t = rng.choice(texts)
+    f = [rng.choice(ids), sev, 0, rng.choice([0, 0, 7, 9]), b"", rng.choice(H_FILES), False, t, t + rng.choice([b"", b"!"]),
+         rng.choice([b"", b"foo\n", b"foo\nbar\n"]), nf]
+    for _ in range(nf):
+        f += [rng.choice([1, 2, 3]), rng.choice([1, 5]), rng.choice(H_FILES), rng.choice(H_FILES), rng.choice(H_INFOS)]
+    return f
